@@ -9,25 +9,33 @@ Import ListNotations.
 Local Open Scope N_scope.
 
 (* ---- "an allow list admits only addresses inside its blocks" (all rule maps, all addresses) ---- *)
-Theorem C12_allow_only_inside : forall r ip,
-  r_allow r <> [] -> deny_by_ip r (Some ip) = false ->
-  exists b, In b (r_allow r) /\ contains b ip = true.
+Theorem C12_allow_only_inside : forall r l ip,
+  r_allow r = Some l -> deny_by_ip r (Some ip) = false ->
+  exists b, In b l /\ contains b ip = true.
 Proof. exact allow_only_inside. Qed.
 Print Assumptions C12_allow_only_inside.
 
-Theorem C12_allow_inside_admitted : forall r ip b,
-  In b (r_allow r) -> contains b ip = true -> deny_by_ip r (Some ip) = false.
+Theorem C12_allow_inside_admitted : forall r l ip b,
+  r_allow r = Some l -> In b l -> contains b ip = true -> deny_by_ip r (Some ip) = false.
 Proof. exact allow_inside_admitted. Qed.
 Print Assumptions C12_allow_inside_admitted.
 
+(* an allow list without blocks (Target.denyAll, 1cbe751) admits no address *)
+Theorem C12_empty_allow_denies_all : forall r ip,
+  r_allow r = Some [] -> deny_by_ip r (Some ip) = true.
+Proof. exact empty_allow_denies_all. Qed.
+Print Assumptions C12_empty_allow_denies_all.
+
 (* ---- "a deny list rejects addresses inside its blocks" (and only those) ---- *)
-Theorem C12_deny_inside : forall r ip b,
-  r_allow r = [] -> In b (r_deny r) -> contains b ip = true -> deny_by_ip r (Some ip) = true.
+Theorem C12_deny_inside : forall r l ip b,
+  r_allow r = None -> r_deny r = Some l -> In b l -> contains b ip = true ->
+  deny_by_ip r (Some ip) = true.
 Proof. exact deny_inside. Qed.
 Print Assumptions C12_deny_inside.
 
 Theorem C12_deny_only_inside : forall r ip,
-  r_allow r = [] -> deny_by_ip r (Some ip) = true -> exists b, In b (r_deny r) /\ contains b ip = true.
+  r_allow r = None -> deny_by_ip r (Some ip) = true ->
+  exists l b, r_deny r = Some l /\ In b l /\ contains b ip = true.
 Proof. exact deny_only_inside. Qed.
 Print Assumptions C12_deny_only_inside.
 
@@ -55,6 +63,13 @@ Theorem C12_authorized_iff : forall (creds : Type) name (schemes : scheme_table 
   authorized name schemes c = true <-> name = [] \/ exists s, schemes name = Some s /\ s c = true.
 Proof. exact authorized_iff. Qed.
 Print Assumptions C12_authorized_iff.
+
+(* no answer depends on the requests served before it (e.g. on an earlier successful login) *)
+Theorem C12_auth_history_independent :
+  forall (creds : Type) name (schemes : scheme_table creds) pre c post d,
+  nth (List.length pre) (auth_history name schemes (pre ++ c :: post)) d = authorized name schemes c.
+Proof. exact auth_history_independent. Qed.
+Print Assumptions C12_auth_history_independent.
 
 (* ---- the gates come before any upstream action ---- *)
 Theorem C12_gate_before_upstream_http :
@@ -113,42 +128,87 @@ Print Assumptions C12_xff_all_checked.
 
 (* ---- end to end: forwarded / dialled only if admitted ---- *)
 Theorem C12_http_upstream_only_if_allowed :
-  forall parse_ip split_host (creds : Type) tg (schemes : scheme_table creds) remote xff c,
+  forall parse_ip split_host (creds : Type) tg l (schemes : scheme_table creds) remote xff c,
   In EUpstream (serve_http parse_ip split_host creds (Some tg) schemes remote xff c) ->
-  r_allow (t_rules tg) <> [] -> parse_ip [] = None ->
+  r_allow (t_rules tg) = Some l -> parse_ip [] = None ->
   exists host, split_host remote = Some host /\
-    (forall ip, parse_ip (strip_zone host) = Some ip ->
-                exists b, In b (r_allow (t_rules tg)) /\ contains b ip = true) /\
+    (forall ip, parse_ip (strip_zone host) = Some ip -> exists b, In b l /\ contains b ip = true) /\
     (forall v x ip, In v xff -> In x (split_byte v 44) ->
-       parse_ip (strip_zone (trim_space x)) = Some ip ->
-       exists b, In b (r_allow (t_rules tg)) /\ contains b ip = true).
+       parse_ip (strip_zone (trim_space x)) = Some ip -> exists b, In b l /\ contains b ip = true).
 Proof. exact http_upstream_only_if_allowed. Qed.
 Print Assumptions C12_http_upstream_only_if_allowed.
 
-Theorem C12_tcp_upstream_only_if_allowed : forall tg ip,
-  In EUpstream (serve_tcp (Some tg) (TCPAddr (Some ip))) -> r_allow (t_rules tg) <> [] ->
-  exists b, In b (r_allow (t_rules tg)) /\ contains b ip = true.
+Theorem C12_tcp_upstream_only_if_allowed : forall tg l ip,
+  In EUpstream (serve_tcp (Some tg) (TCPAddr (Some ip))) -> r_allow (t_rules tg) = Some l ->
+  exists b, In b l /\ contains b ip = true.
 Proof. exact tcp_upstream_only_if_allowed. Qed.
 Print Assumptions C12_tcp_upstream_only_if_allowed.
 
-Theorem C12_tcp_upstream_only_if_not_denied : forall tg ip b,
+Theorem C12_tcp_upstream_only_if_not_denied : forall tg l ip b,
   In EUpstream (serve_tcp (Some tg) (TCPAddr (Some ip))) ->
-  r_allow (t_rules tg) = [] -> In b (r_deny (t_rules tg)) -> contains b ip = false.
+  r_allow (t_rules tg) = None -> r_deny (t_rules tg) = Some l -> In b l -> contains b ip = false.
 Proof. exact tcp_upstream_only_if_not_denied. Qed.
 Print Assumptions C12_tcp_upstream_only_if_not_denied.
 
-(* ---- "a rule that cannot be parsed never widens access": FALSE on the unchanged code.
-        F-C12-1 (region 1 = ProcessAccessRules returns an error) ---- *)
+(* ---- "a rule that cannot be parsed never widens access": holds for EVERY rule text since
+        1cbe751 (every error return of ProcessAccessRules is preceded by denyAll). ---- *)
+(* whoever the rules in force admit is admitted by the rules built from the parsable items
+   only; and a text with an unusable item (or with both options) admits no address at all *)
+Theorem C12_fail_closed : forall parse_ip parse_cidr allow_opt deny_opt ip,
+  (deny_by_ip (target_rules parse_ip parse_cidr allow_opt deny_opt) (Some ip) = false ->
+   intended_admits parse_ip parse_cidr allow_opt deny_opt ip = true) /\
+  (rule_well_formed parse_ip parse_cidr allow_opt deny_opt = false ->
+   deny_by_ip (target_rules parse_ip parse_cidr allow_opt deny_opt) (Some ip) = true).
+Proof. exact fail_closed_every_text. Qed.
+Print Assumptions C12_fail_closed.
+
+(* ProcessAccessRules completely: intended blocks on a well-formed text, denyAll's map otherwise *)
+Theorem C12_process_access_rules_spec : forall parse_ip parse_cidr allow_opt deny_opt,
+  process_access_rules parse_ip parse_cidr allow_opt deny_opt =
+    if rule_well_formed parse_ip parse_cidr allow_opt deny_opt then
+      ({| r_allow := if is_nil allow_opt then None else Some (intended_blocks parse_ip parse_cidr allow_opt);
+          r_deny := if is_nil deny_opt then None else Some (intended_blocks parse_ip parse_cidr deny_opt) |}, true)
+    else (deny_all_rules, false).
+Proof. exact process_access_rules_spec. Qed.
+Print Assumptions C12_process_access_rules_spec.
+
+Theorem C12_fail_closed_nonvacuous :
+  rule_well_formed ex_parse_ip ex_parse_cidr (bs "ip:10.0.0.0/8,ip:10.0.0.0/33") [] = false /\
+  target_rules ex_parse_ip ex_parse_cidr (bs "ip:10.0.0.0/8,ip:10.0.0.0/33") [] = deny_all_rules /\
+  intended_admits ex_parse_ip ex_parse_cidr (bs "ip:10.0.0.0/8,ip:10.0.0.0/33") [] (IP4 168364297) = true /\
+  deny_by_ip (target_rules ex_parse_ip ex_parse_cidr (bs "ip:10.0.0.0/8,ip:10.0.0.0/33") []) (Some (IP4 168364297)) = true /\
+  r_allow (target_rules_unrepaired ex_parse_ip ex_parse_cidr (bs "ip:10.0.0.0/8,ip:10.0.0.0/33") []) = Some [ex_net_10] /\
+  deny_by_ip (target_rules ex_parse_ip ex_parse_cidr (bs "ip:10.0.0.0/8, IP:6.6.6.6") []) (Some (IP4 168364297)) = false.
+Proof. exact fail_closed_nonvacuous. Qed.
+Print Assumptions C12_fail_closed_nonvacuous.
+
+(* corollaries: on a well-formed text the decision IS the intended one; an allow option alone *)
+Theorem C12_fail_closed_on_domain : forall parse_ip parse_cidr allow_opt deny_opt ip,
+  rule_well_formed parse_ip parse_cidr allow_opt deny_opt = true ->
+  deny_by_ip (target_rules parse_ip parse_cidr allow_opt deny_opt) (Some ip)
+  = negb (intended_admits parse_ip parse_cidr allow_opt deny_opt ip).
+Proof. exact fail_closed_on_domain. Qed.
+Print Assumptions C12_fail_closed_on_domain.
+
+Theorem C12_allow_only_fail_closed_on_domain : forall parse_ip parse_cidr allow_opt ip,
+  deny_by_ip (target_rules parse_ip parse_cidr allow_opt []) (Some ip) = false ->
+  intended_admits parse_ip parse_cidr allow_opt [] ip = true.
+Proof. exact allow_only_fail_closed. Qed.
+Print Assumptions C12_allow_only_fail_closed_on_domain.
+
+(* It was FALSE before 1cbe751 (F-C12-1, fixed): the three refutations are about the code
+   before that commit ([target_rules_unrepaired]: an error return left the map empty or
+   partially filled), followed by the same witnesses being denied by the code as it is. *)
 Theorem C12_bad_rule_widens_refuted :
   exists parse_ip parse_cidr allow_opt deny_opt ip,
-    deny_by_ip (target_rules parse_ip parse_cidr allow_opt deny_opt) (Some ip) = false /\
+    deny_by_ip (target_rules_unrepaired parse_ip parse_cidr allow_opt deny_opt) (Some ip) = false /\
     intended_admits parse_ip parse_cidr allow_opt deny_opt ip = false.
 Proof. exact bad_rule_widens_refuted. Qed.
 Print Assumptions C12_bad_rule_widens_refuted.
 
 Theorem C12_bad_first_deny_item_refuted :
   exists parse_ip parse_cidr deny_opt ip,
-    deny_by_ip (target_rules parse_ip parse_cidr [] deny_opt) (Some ip) = false /\
+    deny_by_ip (target_rules_unrepaired parse_ip parse_cidr [] deny_opt) (Some ip) = false /\
     intended_admits parse_ip parse_cidr [] deny_opt ip = false.
 Proof. exact bad_first_deny_item_refuted. Qed.
 Print Assumptions C12_bad_first_deny_item_refuted.
@@ -157,28 +217,18 @@ Theorem C12_allow_and_deny_refuted :
   exists parse_ip parse_cidr allow_opt deny_opt ip,
     allow_opt <> [] /\ deny_opt <> [] /\
     items_ok parse_ip parse_cidr allow_opt = true /\ items_ok parse_ip parse_cidr deny_opt = true /\
-    deny_by_ip (target_rules parse_ip parse_cidr allow_opt deny_opt) (Some ip) = false /\
+    deny_by_ip (target_rules_unrepaired parse_ip parse_cidr allow_opt deny_opt) (Some ip) = false /\
     intended_admits parse_ip parse_cidr allow_opt deny_opt ip = false.
 Proof. exact allow_and_deny_refuted. Qed.
 Print Assumptions C12_allow_and_deny_refuted.
 
-(* outside the region: on every well-formed rule text (one option, every item parses) the
-   decision IS the intended one ... *)
-Theorem C12_fail_closed_on_domain : forall parse_ip parse_cidr allow_opt deny_opt ip,
-  rule_well_formed parse_ip parse_cidr allow_opt deny_opt = true ->
-  deny_by_ip (target_rules parse_ip parse_cidr allow_opt deny_opt) (Some ip)
-  = negb (intended_admits parse_ip parse_cidr allow_opt deny_opt ip).
-Proof. exact fail_closed_on_domain. Qed.
-Print Assumptions C12_fail_closed_on_domain.
-
-(* ... and an allow option alone is fail-closed as soon as its first item parses (a later
-   bad item only narrows) *)
-Theorem C12_allow_only_fail_closed_on_domain : forall parse_ip parse_cidr allow_opt ip,
-  r_allow (target_rules parse_ip parse_cidr allow_opt []) <> [] ->
-  deny_by_ip (target_rules parse_ip parse_cidr allow_opt []) (Some ip) = false ->
-  intended_admits parse_ip parse_cidr allow_opt [] ip = true.
-Proof. exact allow_only_fail_closed. Qed.
-Print Assumptions C12_allow_only_fail_closed_on_domain.
+Theorem C12_unusable_rules_now_denied :
+  target_rules ex_parse_ip ex_parse_cidr (bs "ip:10.0.0.0/33") [] = deny_all_rules /\
+  deny_by_ip (target_rules ex_parse_ip ex_parse_cidr (bs "ip:10.0.0.0/33") []) (Some ip_8888) = true /\
+  deny_by_ip (target_rules ex_parse_ip ex_parse_cidr [] (bs "ip:bad,ip:6.6.6.6")) (Some ip_6666) = true /\
+  deny_by_ip (target_rules ex_parse_ip ex_parse_cidr (bs "ip:10.0.0.0/8") (bs "ip:6.6.6.6")) (Some ip_6666) = true.
+Proof. exact unusable_rules_now_denied. Qed.
+Print Assumptions C12_unusable_rules_now_denied.
 
 (* ---- request level: "every address the request carries is admitted".
         It was FALSE for zone-scoped addresses (F-C12-2, repaired by f5e2970) and for several
@@ -256,7 +306,7 @@ Print Assumptions C12_nonvacuous_contains.
 Theorem C12_nonvacuous_well_formed :
   rule_well_formed ex_parse_ip ex_parse_cidr (bs "ip:10.0.0.0/8, IP:6.6.6.6") [] = true /\
   r_allow (target_rules ex_parse_ip ex_parse_cidr (bs "ip:10.0.0.0/8, IP:6.6.6.6") []) =
-    [ex_net_10; {| n_ip := IP4 101058054; n_ones := 32; n_m16 := false |}].
+    Some [ex_net_10; {| n_ip := IP4 101058054; n_ones := 32; n_m16 := false |}].
 Proof. exact well_formed_nonvacuous. Qed.
 Print Assumptions C12_nonvacuous_well_formed.
 
